@@ -40,38 +40,40 @@ func specDeltaT(mine, theirs int64) int64 {
 
 func pre_Value(v Value) bool { return len(v) >= 16 }
 
-//@ verify newValue post=post_newValue props=C04
+// @ verify newValue post=post_newValue props=C04
 func post_newValue(res0 Value) bool {
 	return len(res0) == 16 && specBE64(res0, 0) == 0 && specBE64(res0, 8) == 0
 }
 
-//@ verify (Value).AddTime pre=pre_Value post=post_AddTime props=C04,C13
+// @ verify (Value).AddTime pre=pre_Value post=post_AddTime props=C04,C13
 func post_AddTime(v Value, res0 int64) bool { return res0 == specBE64(v, 0) }
 
-//@ verify (Value).DelTime pre=pre_Value post=post_DelTime props=C04,C13
+// @ verify (Value).DelTime pre=pre_Value post=post_DelTime props=C04,C13
 func post_DelTime(v Value, res0 int64) bool { return res0 == specBE64(v, 8) }
 
-//@ verify (Value).setAddTime pre=pre_Value post=post_setAddTime props=C04,C13
+// @ verify (Value).setAddTime pre=pre_Value post=post_setAddTime props=C04,C13
 func post_setAddTime(v Value, t int64, old_v Value) bool {
 	return specBE64(v, 0) == t && vs.Forall(8, len(v), func(i int) bool { return v[i] == old_v[i] })
 }
 
-//@ verify (Value).setDelTime pre=pre_Value post=post_setDelTime props=C04,C13
+// @ verify (Value).setDelTime pre=pre_Value post=post_setDelTime props=C04,C13
 func post_setDelTime(v Value, t int64, old_v Value) bool {
 	return specBE64(v, 8) == t && vs.Forall(0, 8, func(i int) bool { return v[i] == old_v[i] }) &&
 		vs.Forall(16, len(v), func(i int) bool { return v[i] == old_v[i] })
 }
 
-//@ verify (Value).IsAdded pre=pre_Value post=post_IsAdded props=C04,C14
+// @ verify (Value).IsAdded pre=pre_Value post=post_IsAdded props=C04,C14
 func post_IsAdded(v Value, res0 bool) bool { return res0 == specActive(specBE64(v, 0), specBE64(v, 8)) }
 
-//@ verify (Value).IsRemoved pre=pre_Value post=post_IsRemoved props=C04
+// @ verify (Value).IsRemoved pre=pre_Value post=post_IsRemoved props=C04
 func post_IsRemoved(v Value, res0 bool) bool { return res0 == (specBE64(v, 0) < specBE64(v, 8)) }
 
-//@ verify (Value).IsZero pre=pre_Value post=post_IsZero props=C04,C13
-func post_IsZero(v Value, res0 bool) bool { return res0 == (specBE64(v, 0) == 0 && specBE64(v, 8) == 0) }
+// @ verify (Value).IsZero pre=pre_Value post=post_IsZero props=C04,C13
+func post_IsZero(v Value, res0 bool) bool {
+	return res0 == (specBE64(v, 0) == 0 && specBE64(v, 8) == 0)
+}
 
-//@ verify (Value).Value pre=pre_Value post=post_Value_Value props=C04
+// @ verify (Value).Value pre=pre_Value post=post_Value_Value props=C04
 func post_Value_Value(v Value, res0 []byte) bool { return vs.SameBytes(res0, v[16:]) }
 
 // ---------------------------------------------------------------------------------------------------------
@@ -79,17 +81,19 @@ func post_Value_Value(v Value, res0 []byte) bool { return vs.SameBytes(res0, v[1
 // in any order, grouping and multiplicity, is the join of that set; and the delta is empty exactly when the
 // incoming entry changes nothing.
 
-//@ lemma lemmaJoinCommutative props=C04
+// @ lemma lemmaJoinCommutative props=C04
 func lemmaJoinCommutative(a, b int64) bool { return specMax(a, b) == specMax(b, a) }
 
-//@ lemma lemmaJoinAssociative props=C04
-func lemmaJoinAssociative(a, b, c int64) bool { return specMax(specMax(a, b), c) == specMax(a, specMax(b, c)) }
+// @ lemma lemmaJoinAssociative props=C04
+func lemmaJoinAssociative(a, b, c int64) bool {
+	return specMax(specMax(a, b), c) == specMax(a, specMax(b, c))
+}
 
-//@ lemma lemmaJoinIdempotent props=C04
+// @ lemma lemmaJoinIdempotent props=C04
 func lemmaJoinIdempotent(a int64) bool { return specMax(a, a) == a }
 
 // receiving a delta or the full entry gives the same state
-//@ lemma lemmaDeltaSuffices pre=pre_lemmaNonNeg props=C04,C13
+// @ lemma lemmaDeltaSuffices pre=pre_lemmaNonNeg props=C04,C13
 func pre_lemmaNonNeg(mine int64) bool { return mine >= 0 }
 func lemmaDeltaSuffices(mine, theirs, third int64) bool {
 	// a third replica (times >= 0) that merges the delta ends where it would end with the full time
@@ -97,7 +101,7 @@ func lemmaDeltaSuffices(mine, theirs, third int64) bool {
 }
 
 // the delta is empty exactly when nothing changed locally (so re-gossip stops exactly when replicas agree)
-//@ lemma lemmaDeltaEmptyIffUnchanged pre=pre_lemmaNonNeg props=C13
+// @ lemma lemmaDeltaEmptyIffUnchanged pre=pre_lemmaNonNeg props=C13
 func lemmaDeltaEmptyIffUnchanged(mine, theirs int64) bool {
 	return (specDeltaT(mine, theirs) == 0) == (specMax(mine, theirs) == mine)
 }
@@ -125,7 +129,7 @@ func specWF(m map[string]Value) bool {
 
 func pre_Volatile(s *Volatile) bool { return s != nil && s.lock != nil && specWF(s.data) }
 
-//@ verify (*Volatile).Has pre=pre_Volatile post=post_Volatile_Has props=C04,C14
+// @ verify (*Volatile).Has pre=pre_Volatile post=post_Volatile_Has props=C04,C14
 func post_Volatile_Has(s *Volatile, item string, res0 bool) bool {
 	return res0 == specActive(specAdd(s.data, item), specDel(s.data, item))
 }
@@ -153,7 +157,7 @@ func pre_Volatile_Upd(s *Volatile, value []byte) bool {
 
 // Add at clock reading `now` is the join with (now, .): a non-newer reading changes nothing (which IS the join).
 // `now` is the value the clock returned: the single recorded call of the Now function variable.
-//@ verify (*Volatile).Add pre=pre_Volatile_Upd post=post_Volatile_Add_add,post_Volatile_Add_del,post_Volatile_WF props=C04,C14
+// @ verify (*Volatile).Add pre=pre_Volatile_Upd post=post_Volatile_Add_add,post_Volatile_Add_del,post_Volatile_WF props=C04,C14
 func post_Volatile_Add_add(s *Volatile, item string, value []byte) bool {
 	now := vs.TraceRetInt64(0, 0)
 	return vs.TraceLen() == 1 && specAdd(s.data, item) == specMax(oldAdd(s.data, item), now)
@@ -166,8 +170,10 @@ func post_Volatile_Add_others(s *Volatile, item string, value []byte) bool {
 }
 func post_Volatile_WF(s *Volatile) bool { return specWF(s.data) }
 
-//@ verify (*Volatile).Del pre=pre_Volatile_Del post=post_Volatile_Del,post_Volatile_WF props=C04,C14
-func pre_Volatile_Del(s *Volatile) bool { return s != nil && s.lock != nil && specWF(s.data) && specSep(s.data) }
+// @ verify (*Volatile).Del pre=pre_Volatile_Del post=post_Volatile_Del,post_Volatile_WF props=C04,C14
+func pre_Volatile_Del(s *Volatile) bool {
+	return s != nil && s.lock != nil && specWF(s.data) && specSep(s.data)
+}
 func post_Volatile_Del(s *Volatile, item string) bool {
 	now := vs.TraceRetInt64(0, 0)
 	return vs.TraceLen() == 1 && specDel(s.data, item) == specMax(oldDel(s.data, item), now) &&
@@ -190,7 +196,7 @@ func mkValue(a, d int64) Value {
 }
 
 // one existing entry; Add then Del of a possibly different key: the other key is untouched, the view is the join
-//@ bounded standinAddDel props=C04,C14 bound=1-entry-set,one-Add-then-one-Del,keys-possibly-equal
+// @ bounded standinAddDel props=C04,C14 bound=1-entry-set,one-Add-then-one-Del,keys-possibly-equal
 func standinAddDel(k1, k2 string, a1, d1 int64, payload []byte) bool {
 	s := NewVolatile()
 	s.data[k1] = mkValue(a1, d1)
@@ -209,8 +215,8 @@ func standinAddDel(k1, k2 string, a1, d1 int64, payload []byte) bool {
 // Merge, smallest shape (one entry in each set, keys possibly equal): afterwards the receiver holds the join and
 // the argument holds exactly the delta - only the times that changed the receiver, nothing when nothing changed.
 // The receiver's own times are >= 0 (invariant N of DESIGN section 6 C04: without it add_s = MinInt64 loses to 0).
-//@ bounded standinMerge11 pre=pre_standinMerge11 props=C04,C13 bound=1-entry-receiver,1-entry-argument,keys-possibly-equal
-//@ loop (*Volatile).Merge 0 unroll 1 for=standinMerge11
+// @ bounded standinMerge11 pre=pre_standinMerge11 props=C04,C13 bound=1-entry-receiver,1-entry-argument,keys-possibly-equal
+// @ loop (*Volatile).Merge 0 unroll 1 for=standinMerge11
 func pre_standinMerge11(k1, k2 string, a1, d1, a2, d2 int64) bool { return a1 >= 0 && d1 >= 0 }
 func standinMerge11(k1, k2 string, a1, d1, a2, d2 int64) bool {
 	s, r := NewVolatile(), NewVolatile()
@@ -234,7 +240,7 @@ func standinMerge11(k1, k2 string, a1, d1, a2, d2 int64) bool {
 
 func pre_Durable_store(s *Durable, t Value) bool { return s != nil && s.cache != nil && len(t) >= 16 }
 
-//@ verify (*Durable).store pre=pre_Durable_store post=post_Durable_store_db,post_Durable_store_cache props=C14
+// @ verify (*Durable).store pre=pre_Durable_store post=post_Durable_store_db,post_Durable_store_cache props=C14
 func post_Durable_store_db(s *Durable, key string) bool {
 	// exactly one database write, of this key
 	w := vs.TraceFind("buntdb.Tx).Set")
@@ -246,7 +252,7 @@ func post_Durable_store_cache(s *Durable, key string) bool {
 }
 
 // Has is fetch().IsAdded(): with invariant C, the latest acknowledged Add/Del/Merge decides
-//@ verify (*Durable).Has pre=pre_Durable post=post_Durable_Has props=C14
+// @ verify (*Durable).Has pre=pre_Durable post=post_Durable_Has props=C14
 func pre_Durable(s *Durable) bool { return s != nil && s.cache != nil && s.db != nil }
 func post_Durable_Has(s *Durable, res0 bool) bool {
 	// a cache hit is believed without asking the database
@@ -256,23 +262,23 @@ func post_Durable_Has(s *Durable, res0 bool) bool {
 
 // assumed about the storage engines (outside the verified code): an open database starts a read transaction; what
 // the cache or the database hold for a key is something store wrote, i.e. a value with its 16-byte header
-//@ assume (*github.com/tidwall/buntdb.DB).Begin iface post=post_buntdb_Begin
+// @ assume (*github.com/tidwall/buntdb.DB).Begin iface post=post_buntdb_Begin
 func post_buntdb_Begin(res0 *buntdb.Tx, res1 error) bool { return res1 == nil && res0 != nil }
 
-//@ assume (*github.com/coocood/freecache.Cache).Get iface post=post_cache_Get
+// @ assume (*github.com/coocood/freecache.Cache).Get iface post=post_cache_Get
 func post_cache_Get(res0 []byte, res1 error) bool { return res1 != nil || len(res0) >= 16 }
 
-//@ assume (*github.com/tidwall/buntdb.Tx).Get iface post=post_tx_Get
+// @ assume (*github.com/tidwall/buntdb.Tx).Get iface post=post_tx_Get
 func post_tx_Get(res0 string, res1 error) bool { return res1 != nil || len(res0) >= 16 }
 
 // the zero-copy conversions of kelindar/binary (unsafe casts): same length, same bytes. Modelled as copies - the
 // aliasing between a string and the bytes it was cast from is dropped (DESIGN section 2.7).
-//@ assume github.com/kelindar/binary.ToBytes iface post=post_binary_ToBytes
+// @ assume github.com/kelindar/binary.ToBytes iface post=post_binary_ToBytes fresh
 func post_binary_ToBytes(v string, res0 []byte) bool {
 	return len(res0) == len(v) && vs.Forall(0, len(v), func(i int) bool { return res0[i] == v[i] })
 }
 
-//@ assume github.com/kelindar/binary.ToString iface post=post_binary_ToString
+// @ assume github.com/kelindar/binary.ToString iface post=post_binary_ToString
 func post_binary_ToString(b *[]byte, res0 string) bool {
 	return b != nil && len(res0) == len(*b) && vs.Forall(0, len(res0), func(i int) bool { return res0[i] == (*b)[i] })
 }
@@ -281,8 +287,8 @@ func post_binary_ToString(b *[]byte, res0 string) bool {
 // Hostile input (property C09): Merge receives sets decoded from gossip payloads. Safety for ANY argument set whose
 // values carry their 16-byte header - which the decoder must therefore guarantee (contract on DecodeTo below).
 
-//@ verify (*Volatile).Merge as=anyinput pre=pre_Volatile_Merge_any props=C09
-//@ loop (*Volatile).Merge 0 inv inv_Volatile_Merge_any modifies=* for=anyinput
+// @ verify (*Volatile).Merge as=anyinput pre=pre_Volatile_Merge_any props=C09
+// @ loop (*Volatile).Merge 0 inv inv_Volatile_Merge_any modifies=* for=anyinput
 func pre_Volatile_Merge_any(s *Volatile, other Map) bool {
 	r, ok := other.(*Volatile)
 	return s != nil && s.lock != nil && ok && r != nil && r.lock != nil && specWF(s.data) && specWF(r.data)
@@ -292,10 +298,90 @@ func inv_Volatile_Merge_any(s *Volatile, r *Volatile) bool {
 }
 
 // the decoder of gossip payloads only ever builds a set whose values carry their header (what Merge relies on)
-//@ verify (*codecVolatile).DecodeTo pre=pre_codecVolatile_DecodeTo props=C09
-//@ loop (*codecVolatile).DecodeTo 0 inv inv_codecVolatile_DecodeTo modifies=*
+// @ verify (*codecVolatile).DecodeTo pre=pre_codecVolatile_DecodeTo props=C09
+// @ loop (*codecVolatile).DecodeTo 0 inv inv_codecVolatile_DecodeTo modifies=*
 func pre_codecVolatile_DecodeTo(d *binary.Decoder) bool { return d != nil }
-func inv_codecVolatile_DecodeTo(out *Volatile) bool   { return out != nil && specWF(out.data) }
+func inv_codecVolatile_DecodeTo(out *Volatile) bool     { return out != nil && specWF(out.data) }
 
-//@ assume (*github.com/kelindar/binary.Decoder).ReadSlice iface post=post_Decoder_ReadSlice
+// @ assume (*github.com/kelindar/binary.Decoder).ReadSlice iface post=post_Decoder_ReadSlice
 func post_Decoder_ReadSlice(res0 []byte, res1 error) bool { return vs.WellFormed(res0) }
+
+// ---------------------------------------------------------------------------------------------------------
+// Durable.Add / Del (the ban list's writers; C04, C14): the closure that runs inside the buntdb write transaction.
+// What is read (tx.Get), the clock (Now) and what is written (tx.Set) are recorded calls. Add writes - once, under
+// this key - the old entry with its add time replaced by the clock reading and the given payload, and ONLY when
+// the clock is ahead of the stored add time (otherwise nothing is written: the join with an older time); Del is
+// the mirror image on the remove time. (The code reads the clock a second time for the value it stores; the
+// contract says exactly that - that the clock does not run backwards between the two readings is not assumed.)
+// The clock is the package-level function variable Now: a call through it is recorded as "funcvalue:C".
+
+func specStrBE64(v string, at int) int64 { // the big-endian 64-bit number at v[at:at+8]
+	return int64(uint64(v[at])<<56 | uint64(v[at+1])<<48 | uint64(v[at+2])<<40 | uint64(v[at+3])<<32 |
+		uint64(v[at+4])<<24 | uint64(v[at+5])<<16 | uint64(v[at+6])<<8 | uint64(v[at+7]))
+}
+func specStoredAdd(g int) int64 { // add time of what tx.Get returned (0: no entry)
+	if vs.TraceRet[error](g, 1) != nil {
+		return 0
+	}
+	return specStrBE64(vs.TraceRet[string](g, 0), 0)
+}
+func specStoredDel(g int) int64 {
+	if vs.TraceRet[error](g, 1) != nil {
+		return 0
+	}
+	return specStrBE64(vs.TraceRet[string](g, 0), 8)
+}
+
+// @ verify (*Durable).Add$1 pre=pre_Durable_upd post=post_Durable_Add_guard,post_Durable_Add_value props=C04,C14 qinst
+func pre_Durable_upd(tx *buntdb.Tx, s *Durable) bool { return tx != nil && s != nil && s.cache != nil }
+func post_Durable_Add_guard(tx *buntdb.Tx, s *Durable, item string) bool {
+	g, n := vs.TraceFind("buntdb.Tx).Get"), vs.TraceFind("funcvalue:C")
+	if g < 0 || n < g || vs.TraceCount("buntdb.Tx).Get") != 1 || vs.TraceArg[string](g, 1) != item {
+		return false
+	}
+	newer := specStoredAdd(g) < vs.TraceRet[int64](n, 0)
+	return vs.TraceCount("buntdb.Tx).Set") == specB2I(newer)
+}
+func post_Durable_Add_value(tx *buntdb.Tx, s *Durable, item string, value []byte) bool {
+	w := vs.TraceFind("buntdb.Tx).Set")
+	if w < 0 {
+		return true
+	}
+	g := vs.TraceFind("buntdb.Tx).Get")
+	stored := vs.TraceArg[string](w, 2)
+	return vs.TraceArg[string](w, 1) == item && vs.TraceCount("funcvalue:C") == 2 && len(stored) == 16+len(value) &&
+		specStrBE64(stored, 0) == vs.TraceRet[int64](vs.TraceFindNth("funcvalue:C", 1), 0) && specStrBE64(stored, 8) == specStoredDel(g) &&
+		vs.Forall(0, len(value), func(i int) bool { return stored[16+i] == value[i] })
+}
+
+// @ verify (*Durable).Del$1 pre=pre_Durable_upd post=post_Durable_Del_guard,post_Durable_Del_value props=C04,C14 qinst
+func post_Durable_Del_guard(tx *buntdb.Tx, s *Durable, item string) bool {
+	g, n := vs.TraceFind("buntdb.Tx).Get"), vs.TraceFind("funcvalue:C")
+	if g < 0 || n < g || vs.TraceCount("buntdb.Tx).Get") != 1 || vs.TraceArg[string](g, 1) != item {
+		return false
+	}
+	newer := specStoredDel(g) < vs.TraceRet[int64](n, 0)
+	return vs.TraceCount("buntdb.Tx).Set") == specB2I(newer)
+}
+func post_Durable_Del_value(tx *buntdb.Tx, s *Durable, item string) bool {
+	w := vs.TraceFind("buntdb.Tx).Set")
+	if w < 0 {
+		return true
+	}
+	g := vs.TraceFind("buntdb.Tx).Get")
+	stored := vs.TraceArg[string](w, 2)
+	return vs.TraceArg[string](w, 1) == item && vs.TraceCount("funcvalue:C") == 2 && len(stored) >= 16 &&
+		specStrBE64(stored, 8) == vs.TraceRet[int64](vs.TraceFindNth("funcvalue:C", 1), 0) && specStrBE64(stored, 0) == specStoredAdd(g)
+}
+
+func specB2I(b bool) int {
+	if b {
+		return 1
+	}
+	return 0
+}
+
+// Durable.Merge's closure (range over the incoming map, two map updates and an append per entry) was tried with the
+// same kind of contract: 1 153 paths and five minutes for a ONE-entry incoming set - outside the budget, not
+// claimed. Its writes go through store (contract above), its loop body is the code of Volatile.Merge, which the
+// bounded stand-in standinMerge11 covers.
